@@ -1,5 +1,7 @@
 package main
 
+import "fmt"
+
 func init() {
 	register("C05", propMeta{
 		Explanation: "Structural necessary conditions of 'hybrid search = metadata pre-filter, per-modality top-k, fusion, ranking': the metadata candidate list (complete, passed to both sub-searches, guarded by the very list's non-emptiness); empty-candidate exit before any sub-search; nil tests of unconfigured modalities; the fusion dispatch and metadata-only fill table over all states of (Vn,Tn,VQ,TQ,Cn) by path enumeration; same k to both modalities, descending comparator, guarded truncation; forwarding of nProbes/efSearch/threshold/aggregation/cutoff; fusion laws (C19 rules on fusion.go).",
@@ -17,6 +19,13 @@ func init() {
 		// the modalities the hybrid search composes (anchors: fusion.go, flat / bm25 / metadata search)
 		ruleFusions(r, "C05")
 		ruleDocumentFilter(r, "C05.FILTER")
+		nb := 0
+		for _, T := range builderTypes(r.W, "HybridSearch", "MetadataSearch", "TextSearch") {
+			nb += ruleBuilders(r, "C05.BLD", T)
+		}
+		if nb < 25 {
+			r.add("C05.BLD", "floor", "-", fmt.Sprintf("%d builder methods on the hybrid / text / metadata search types, floor is 25", nb), Floor)
+		}
 		if fk, err := kindByName(r.W, "flat"); err == nil {
 			ruleScanADM(r, "C05.ADM.flat", fk, admSpec{DEL: true, SKIP: true, THR: true})
 			ruleResultOrder(r, "C05.ORD.flat", fk)
@@ -29,6 +38,11 @@ func init() {
 		}
 		if mk, err := metaKindOf(r.W); err == nil {
 			ruleMetaFresh(r, "C05.FRESH.meta", mk)
+			ruleMetaLogic(r, "C05.LOGIC.meta", mk)
+		}
+		// a removed document must leave every modality it was added to (C06.RM, hybrid instance)
+		if hk, err := hybridKindOf(r.W); err == nil {
+			ruleHybridRemove(r, hk)
 		}
 		r.FloorCheck("C05.CAND", 6)
 		r.FloorCheck("C05.BRANCH", 3)
@@ -67,6 +81,8 @@ func init() {
 			ruleVecAtomicAndRevive(r, k)
 			ruleRemoveMarks(r, "C06.REMOVE", k)
 		}
+		// an added vector is findable at once in every kind: HNSW links / entry hand-over (C12 rules, same anchors)
+		ruleHNSWLinkEntry(r, "C06.HNSW")
 		ruleTextRevive(r, tk)
 		ruleBM25Replace(r, "C06.REPL", tk)
 		ruleTextRemoveMarks(r, "C06.REMOVE", tk)
